@@ -185,6 +185,7 @@ def type_reverse(object):
         return base64.standard_b64decode(encoded)
 
 
+MAX_REAUTH_ATTEMPTS = 2
 _async_auth_glock = asyncio.Lock()
 _async_auth_locks = weakref.WeakKeyDictionary()
 _sync_auth_glock = threading.Lock()
@@ -216,17 +217,20 @@ def requires_auth(func):
                     async with lock:
                         pass
 
-            try:
-                return await func(self, *a, **ka)
-            except exceptions.AuthRequired:
-                if not self._async_auth_lock.locked():
-                    async with self._async_auth_lock:
-                        await self.authenticate()
-                else:
-                    async with self._async_auth_lock:
-                        pass
+            for attempts_left in range(MAX_REAUTH_ATTEMPTS, -1, -1):
+                try:
+                    return await func(self, *a, **ka)
+                except exceptions.AuthRequired:
+                    # Refreshing the authorization only helps so many times
+                    if not attempts_left:
+                        raise
 
-                return await wrapper(self, *a, **ka)
+                    if not self._async_auth_lock.locked():
+                        async with self._async_auth_lock:
+                            await self.authenticate()
+                    else:
+                        async with self._async_auth_lock:
+                            pass
 
     else:
 
@@ -248,19 +252,22 @@ def requires_auth(func):
                     with lock:
                         pass
 
-            try:
-                return func(self, *a, **ka)
-            except exceptions.AuthRequired:
-                if self._auth_lock.acquire(blocking=False):
-                    try:
-                        self.authenticate()
-                    finally:
-                        self._auth_lock.release()
-                else:
-                    with self._auth_lock:
-                        pass
+            for attempts_left in range(MAX_REAUTH_ATTEMPTS, -1, -1):
+                try:
+                    return func(self, *a, **ka)
+                except exceptions.AuthRequired:
+                    # Refreshing the authorization only helps so many times
+                    if not attempts_left:
+                        raise
 
-                return wrapper(self, *a, **ka)
+                    if self._auth_lock.acquire(blocking=False):
+                        try:
+                            self.authenticate()
+                        finally:
+                            self._auth_lock.release()
+                    else:
+                        with self._auth_lock:
+                            pass
 
     wrapper = functools.wraps(func)(wrapper)
     return wrapper
